@@ -43,14 +43,20 @@ type Entry struct {
 }
 
 type Config struct {
-	Base        []int // initial (persisted) position per sequence: [pts, qts, ch0, ch1...]
-	SliceLim    int   // >0: at most that many pts entries per common difference (differenceSlice)
-	TooLongThr  int   // >0: common difference answers differenceTooLong when vis-req > thr
+	Base []int // initial (persisted) position per sequence: [pts, qts, ch0, ch1...]
+	// Untracked[seq]: the channel has no storage record at startup; it becomes tracked by its
+	// first pushed update, whose start is Base[seq] (nil = all tracked).
+	Untracked   []bool
+	SliceLim    int // >0: at most that many pts entries per common difference (differenceSlice)
+	TooLongThr  int // >0: common difference answers differenceTooLong when vis-req > thr
 	CSliceLim   int
 	CTooLongThr int
 }
 
-func (c Config) NSeq() int   { return len(c.Base) }
+func (c Config) NSeq() int { return len(c.Base) }
+func (c Config) untracked(seq int) bool {
+	return seq >= 2 && seq < len(c.Untracked) && c.Untracked[seq]
+}
 func ChanID(seq int) int64   { return int64(1000 + seq - 1) }
 func seqOfChan(id int64) int { return int(id-1000) + 1 }
 func (e Entry) Start() int   { return e.Pos - e.Cnt }
@@ -84,9 +90,21 @@ const (
 
 type Op struct {
 	K     int
-	Vis   []int // server-visible horizon per sequence while the op runs
+	Vis   []int // server-visible horizon per sequence while the op runs; Vis[NSeq] = server seq (optional)
 	Items []int
 	Seq   int
+	// OpPush: the container. SeqNo 0 = unnumbered; PtsChanged adds updatePtsChanged.
+	CID        int
+	SeqNo      int
+	PtsChanged bool
+}
+
+// visOf returns the horizon of sequence i, or the server seq for i == n (0 when absent).
+func visAt(v []int, i int) int {
+	if i < len(v) {
+		return v[i]
+	}
+	return 0
 }
 
 type History struct {
@@ -106,7 +124,7 @@ func (h History) entry(id int) (Entry, bool) {
 
 func (h History) String() string {
 	var sb strings.Builder
-	fmt.Fprintf(&sb, "base=%v slice=%d/%d toolong=%d/%d log=[", h.Cfg.Base, h.Cfg.SliceLim, h.Cfg.CSliceLim, h.Cfg.TooLongThr, h.Cfg.CTooLongThr)
+	fmt.Fprintf(&sb, "base=%v untracked=%v slice=%d/%d toolong=%d/%d log=[", h.Cfg.Base, h.Cfg.Untracked, h.Cfg.SliceLim, h.Cfg.CSliceLim, h.Cfg.TooLongThr, h.Cfg.CTooLongThr)
 	for i, e := range h.Log {
 		if i > 0 {
 			sb.WriteString(" ")
@@ -121,6 +139,12 @@ func (h History) String() string {
 		switch o.K {
 		case OpPush:
 			fmt.Fprintf(&sb, "push%v", o.Items)
+			if o.SeqNo != 0 {
+				fmt.Fprintf(&sb, "seq%d", o.SeqNo)
+			}
+			if o.PtsChanged {
+				sb.WriteString("+ptsChanged")
+			}
 		case OpTooLong:
 			sb.WriteString("tooLong")
 		case OpChanTooLong:
@@ -210,11 +234,13 @@ type Storage struct {
 	ch    map[int64]int
 }
 
-func newStorage(rec *recorder, base []int) *Storage {
+func newStorage(rec *recorder, base []int, records []bool) *Storage {
 	s := &Storage{rec: rec, has: true, ch: map[int64]int{}}
 	s.state = updates.State{Pts: base[0], Qts: base[1], Date: 1, Seq: 0}
 	for i := 2; i < len(base); i++ {
-		s.ch[ChanID(i)] = base[i]
+		if records == nil || records[i] {
+			s.ch[ChanID(i)] = base[i]
+		}
 	}
 	return s
 }
@@ -364,7 +390,7 @@ func (s *Server) setVis(v []int) {
 func (s *Server) UpdatesGetState(ctx context.Context) (*tg.UpdatesState, error) {
 	s.mu.Lock()
 	defer s.mu.Unlock()
-	return &tg.UpdatesState{Pts: s.vis[0], Qts: s.vis[1], Date: 1}, nil
+	return &tg.UpdatesState{Pts: s.vis[0], Qts: s.vis[1], Date: 1, Seq: visAt(s.vis, s.cfg.NSeq())}, nil
 }
 
 // pendingOf returns the log entries of seq with from < pos <= to, in position order.
@@ -398,6 +424,7 @@ func (s *Server) UpdatesGetDifference(ctx context.Context, req *tg.UpdatesGetDif
 	s.mu.Unlock()
 	pp := pendingOf(s.log, 0, req.Pts, vis[0])
 	qq := pendingOf(s.log, 1, req.Qts, vis[1])
+	srvSeq := visAt(vis, s.cfg.NSeq())
 	ev := Ev{T: EvAPI, Seq: 0, Val: req.Pts}
 	root := !s.rec.contScope[0]
 	s.rec.contScope[0] = false
@@ -410,7 +437,7 @@ func (s *Server) UpdatesGetDifference(ctx context.Context, req *tg.UpdatesGetDif
 		return resp, nil
 	}
 	if len(pp) == 0 && len(qq) == 0 {
-		return fin("empty", &tg.UpdatesDifferenceEmpty{Date: 1, Seq: 0})
+		return fin("empty", &tg.UpdatesDifferenceEmpty{Date: 1, Seq: srvSeq})
 	}
 	if s.cfg.TooLongThr > 0 && vis[0]-req.Pts > s.cfg.TooLongThr {
 		s.rec.contScope[0] = true
@@ -418,10 +445,29 @@ func (s *Server) UpdatesGetDifference(ctx context.Context, req *tg.UpdatesGetDif
 		s.rec.pendingTLv[0] = append(s.rec.pendingTLv[0], vis[0])
 		return fin(fmt.Sprintf("tooLong pts=%d", vis[0]), &tg.UpdatesDifferenceTooLong{Pts: vis[0]})
 	}
-	cut, slice := vis[0], false
-	if s.cfg.SliceLim > 0 && len(pp) > s.cfg.SliceLim {
-		cut, slice = pp[s.cfg.SliceLim-1].Pos, true
-		pp = pendingOf(s.log, 0, req.Pts, cut)
+	// A slice is a prefix (in log = publication order) of the pending pts and qts entries; the
+	// intermediate state is the highest position taken per sequence.
+	cut, cutq, slice := vis[0], vis[1], false
+	if s.cfg.SliceLim > 0 {
+		var merged []Entry
+		for _, e := range s.log {
+			if (e.Seq == 0 && req.Pts < e.Pos && e.Pos <= vis[0]) || (e.Seq == 1 && req.Qts < e.Pos && e.Pos <= vis[1]) {
+				merged = append(merged, e)
+			}
+		}
+		if len(merged) > s.cfg.SliceLim {
+			cut, cutq, slice = req.Pts, req.Qts, true
+			for _, e := range merged[:s.cfg.SliceLim] {
+				if e.Seq == 0 && e.Pos > cut {
+					cut = e.Pos
+				}
+				if e.Seq == 1 && e.Pos > cutq {
+					cutq = e.Pos
+				}
+			}
+			pp = pendingOf(s.log, 0, req.Pts, cut)
+			qq = pendingOf(s.log, 1, req.Qts, cutq)
+		}
 	}
 	var msgs []tg.MessageClass
 	var encs []tg.EncryptedMessageClass
@@ -445,13 +491,13 @@ func (s *Server) UpdatesGetDifference(ctx context.Context, req *tg.UpdatesGetDif
 			oo = append(oo, e)
 		}
 	}
-	st := tg.UpdatesState{Pts: cut, Qts: vis[1], Date: 1, Seq: 0}
+	st := tg.UpdatesState{Pts: cut, Qts: cutq, Date: 1, Seq: srvSeq}
 	if slice {
 		s.rec.contScope[0] = true
-		return fin(fmt.Sprintf("slice msgs=[%s] others=[%s] pts=%d qts=%d", idsOf(om), idsOf(oo), cut, vis[1]),
+		return fin(fmt.Sprintf("slice msgs=[%s] others=[%s] pts=%d qts=%d", idsOf(om), idsOf(oo), cut, cutq),
 			&tg.UpdatesDifferenceSlice{NewMessages: msgs, NewEncryptedMessages: encs, OtherUpdates: others, IntermediateState: st})
 	}
-	return fin(fmt.Sprintf("difference msgs=[%s] others=[%s] pts=%d qts=%d", idsOf(om), idsOf(oo), cut, vis[1]),
+	return fin(fmt.Sprintf("difference msgs=[%s] others=[%s] pts=%d qts=%d", idsOf(om), idsOf(oo), cut, cutq),
 		&tg.UpdatesDifference{NewMessages: msgs, NewEncryptedMessages: encs, OtherUpdates: others, State: st})
 }
 
@@ -467,7 +513,7 @@ func (s *Server) UpdatesGetChannelDifference(ctx context.Context, req *tg.Update
 	s.rec.mu.Lock()
 	defer s.rec.mu.Unlock()
 	s.mu.Lock()
-	if seq < 2 || seq >= len(s.vis) {
+	if seq < 2 || seq >= s.cfg.NSeq() {
 		s.mu.Unlock()
 		return nil, errors.New("unknown channel")
 	}
@@ -532,12 +578,19 @@ type Run struct {
 	ctx    context.Context
 	nMain  int
 
+	tracked    map[int]bool // channel workers that exist (sentinels are only sent to those)
+	phaseStart time.Time    // first push after startup / a timer wait: timers cannot fire before +500 ms
+
 	Executed     []Op // the ops as the model must replay them (timers as observed)
 	Interference bool // a timer fired while a push was being processed (placement ambiguous)
 	Stuck        string
 }
 
-const syncTimeout = 60 * time.Second
+const syncTimeout = 45 * time.Second
+
+// safeWindow: root API calls observed during a push are attributed to the push itself
+// (updatePtsChanged, channel-subscribe) only while no gap timer (500 ms) can have fired.
+const safeWindow = 380 * time.Millisecond
 
 // handle is the telegram.UpdateHandler given to the manager.
 func (r *Run) handle(ctx context.Context, u tg.UpdatesClass) error {
@@ -637,14 +690,23 @@ func (r *Run) onChannelTooLong(id int64) {
 
 // Start creates storage/server/manager for h and runs the manager. initial overrides the
 // persisted positions (restart from a crash point); nil = h.Cfg.Base.
-func Start(h History, initial []int, vis []int) (*Run, error) {
+func Start(h History, initial []int, records []bool, vis []int) (*Run, error) {
 	base := h.Cfg.Base
 	if initial != nil {
 		base = initial
 	}
+	if records == nil {
+		records = make([]bool, h.Cfg.NSeq())
+		for i := range records {
+			records[i] = !h.Cfg.untracked(i)
+		}
+	}
 	rec := newRecorder()
-	r := &Run{h: h, rec: rec, done: make(chan error, 1)}
-	r.store = newStorage(rec, base)
+	r := &Run{h: h, rec: rec, done: make(chan error, 1), tracked: map[int]bool{}}
+	for i := 2; i < h.Cfg.NSeq(); i++ {
+		r.tracked[i] = records[i]
+	}
+	r.store = newStorage(rec, base, records)
 	r.srv = &Server{rec: rec, cfg: h.Cfg, log: h.Log}
 	r.srv.setVis(vis)
 	r.mgr = updates.New(updates.Config{
@@ -705,12 +767,18 @@ func (r *Run) Sync() bool {
 		r.rec.mu.Lock()
 		a0 := r.rec.activity
 		r.rec.mu.Unlock()
-		if n := r.h.Cfg.NSeq(); n > 2 {
+		var chans []int
+		for seq := 2; seq < r.h.Cfg.NSeq(); seq++ {
+			if r.tracked[seq] {
+				chans = append(chans, seq)
+			}
+		}
+		if len(chans) > 0 {
 			// A channel worker that is inside sendOut / a diffTimeout wait drains and DROPS its
 			// queue, sentinels included: re-send until every worker answered once in this round.
 			r.rec.mu.Lock()
 			start := map[int]int{}
-			for seq := 2; seq < n; seq++ {
+			for _, seq := range chans {
 				start[seq] = r.rec.chanSeen[seq]
 			}
 			r.rec.mu.Unlock()
@@ -718,7 +786,7 @@ func (r *Run) Sync() bool {
 			for {
 				var ups []tg.UpdateClass
 				r.rec.mu.Lock()
-				for seq := 2; seq < n; seq++ {
+				for _, seq := range chans {
 					if r.rec.chanSeen[seq] == start[seq] {
 						u := &tg.UpdateChannelTooLong{ChannelID: ChanID(seq)}
 						u.SetPts(1 << 30)
@@ -736,7 +804,7 @@ func (r *Run) Sync() bool {
 					return false
 				}
 				r.waitCondFor(150*time.Millisecond, func() bool {
-					for seq := 2; seq < n; seq++ {
+					for _, seq := range chans {
 						if r.rec.chanSeen[seq] == start[seq] {
 							return false
 						}
@@ -806,20 +874,49 @@ func (r *Run) Exec(ops []Op) {
 			r.Executed = append(r.Executed, o)
 			// anything beyond 1 common + 1 per channel root call is a timer (cannot happen this early)
 		case OpPush:
-			ups := make([]tg.UpdateClass, 0, len(o.Items))
+			if r.phaseStart.IsZero() {
+				r.phaseStart = time.Now()
+			}
+			ups := make([]tg.UpdateClass, 0, len(o.Items)+1)
+			newly := map[int]bool{}
 			for _, id := range o.Items {
 				if e, ok := r.h.entry(id); ok {
 					ups = append(ups, mkUpdate(e))
+					if e.Seq >= 2 && !r.tracked[e.Seq] {
+						r.tracked[e.Seq] = true // handleChannel creates the worker (channel-subscribe difference)
+						newly[e.Seq] = true
+					}
 				}
 			}
-			if err := r.mgr.Handle(r.ctx, &tg.Updates{Updates: ups}); err != nil || !r.Sync() {
+			if o.PtsChanged {
+				ups = append(ups, &tg.UpdatePtsChanged{})
+			}
+			if err := r.mgr.Handle(r.ctx, &tg.Updates{Updates: ups, Seq: o.SeqNo}); err != nil || !r.Sync() {
 				fail("push never became quiescent", i)
 				return
 			}
 			r.Executed = append(r.Executed, o)
 			if r.apiCount() != n0 {
-				r.Interference = true
-				takeRoots(n0, o.Vis)
+				// Root calls during a push: channel-subscribe of a newly tracked channel, or the
+				// getDifference of an applied updatePtsChanged. Anything else, or anything that
+				// happens when a gap timer may already have fired, cannot be placed: no correspondence.
+				r.rec.mu.Lock()
+				roots := append([]Ev(nil), r.rec.rootCalls[n0:]...)
+				r.rec.mu.Unlock()
+				common := 0
+				for _, c := range roots {
+					switch {
+					case c.Seq == 0:
+						common++
+					case newly[c.Seq]:
+						delete(newly, c.Seq)
+					default:
+						r.Interference = true
+					}
+				}
+				if common > 1 || time.Since(r.phaseStart) > safeWindow {
+					r.Interference = true
+				}
 			}
 		case OpTooLong:
 			if err := r.mgr.Handle(r.ctx, &tg.UpdatesTooLong{}); err != nil || !r.Sync() {
@@ -836,7 +933,11 @@ func (r *Run) Exec(ops []Op) {
 				return
 			}
 			r.Executed = append(r.Executed, o)
-			if r.apiCount() != n0+1 {
+			want := n0 + 1
+			if !r.tracked[o.Seq] {
+				want = n0 // updateChannelTooLong for a channel without worker is ignored
+			}
+			if r.apiCount() != want {
 				r.Interference = true
 			}
 		case OpWaitTimers:
@@ -852,6 +953,7 @@ func (r *Run) Exec(ops []Op) {
 				}
 			}
 			takeRoots(n0, o.Vis)
+			r.phaseStart = time.Time{}
 		}
 	}
 }
@@ -882,21 +984,39 @@ type Result struct {
 
 // RunHistory executes h on a fresh manager.
 func RunHistory(h History) Result {
-	return runFrom(h, nil, h.Ops)
+	return runFrom(h, nil, nil, h.Ops)
 }
 
-func runFrom(h History, initial []int, ops []Op) Result {
+// historyWatchdog bounds one history (all its ops); a manager that hangs or recurses for
+// longer becomes a "manager-stuck" finding with the history as replay.
+const historyWatchdog = 240 * time.Second
+
+func runFrom(h History, initial []int, records []bool, ops []Op) Result {
 	res := Result{H: h}
 	if len(ops) == 0 {
 		return res
 	}
 	res.FinalVis = ops[len(ops)-1].Vis
-	r, err := Start(h, initial, ops[0].Vis)
+	r, err := Start(h, initial, records, ops[0].Vis)
 	if err != nil {
 		res.Stuck = err.Error()
 		return res
 	}
-	r.Exec(ops)
+	done := make(chan struct{})
+	go func() {
+		defer close(done)
+		r.Exec(ops)
+	}()
+	select {
+	case <-done:
+	case <-time.After(historyWatchdog):
+		r.cancel()
+		res.Stuck = "history watchdog: the manager did not finish the history within " + historyWatchdog.String()
+		r.rec.mu.Lock()
+		res.Trace = append([]Ev(nil), r.rec.trace...)
+		r.rec.mu.Unlock()
+		return res
+	}
 	res.Trace = r.Stop()
 	res.Executed, res.Interference, res.Stuck = r.Executed, r.Interference, r.Stuck
 	r.rec.mu.Lock()
@@ -952,7 +1072,9 @@ func CheckNoLoss(res Result, extra []Ev) []Finding {
 	}
 	pushed := map[int]bool{}
 	for _, o := range res.Executed {
-		if o.K == OpPush {
+		// a numbered container may legitimately be dropped as a whole (outdated after a difference);
+		// plain updates are only required from unnumbered containers
+		if o.K == OpPush && o.SeqNo == 0 {
 			for _, id := range o.Items {
 				pushed[id] = true
 			}
@@ -1103,16 +1225,44 @@ func PersistedAt(base []int, tr []Ev) []int {
 	return p
 }
 
+// RecordsAt tells which channels have a storage record after a trace prefix.
+func RecordsAt(cfg Config, tr []Ev) []bool {
+	rec := make([]bool, cfg.NSeq())
+	for i := range rec {
+		rec[i] = !cfg.untracked(i)
+	}
+	for _, e := range tr {
+		if e.T == EvPersist && e.Seq >= 2 {
+			rec[e.Seq] = true
+		}
+	}
+	return rec
+}
+
 // Restart runs a second manager from the storage content at a crash point, against the same
-// server (horizon = final), then a full recovery; returns its result.
-func Restart(res Result, persisted []int) Result {
+// server (horizon = final), then a full recovery; returns its result. A channel that had no
+// record yet at the crash point is (re)introduced by pushing its first update again.
+func Restart(res Result, persisted []int, records []bool) Result {
 	n := res.H.Cfg.NSeq()
 	vis := res.FinalVis
-	ops := []Op{{K: OpStartup, Vis: vis}, {K: OpTooLong, Vis: vis}}
+	ops := []Op{{K: OpStartup, Vis: vis}}
+	cid := 900000
+	for seq := 2; seq < n; seq++ {
+		if records != nil && !records[seq] {
+			for _, e := range res.H.Log {
+				if e.Seq == seq && e.Start() == res.H.Cfg.Base[seq] {
+					cid++
+					ops = append(ops, Op{K: OpPush, Vis: vis, Items: []int{e.ID}, CID: cid})
+					break
+				}
+			}
+		}
+	}
+	ops = append(ops, Op{K: OpTooLong, Vis: vis})
 	for seq := 2; seq < n; seq++ {
 		ops = append(ops, Op{K: OpChanTooLong, Vis: vis, Seq: seq})
 	}
-	r := runFrom(res.H, persisted, ops)
+	r := runFrom(res.H, persisted, records, ops)
 	r.H.Cfg.Base = persisted
 	return r
 }
@@ -1159,14 +1309,22 @@ func I63(vs []int) string {
 }
 
 // CoqCase encodes (history as executed, observation) for Run/Check_C02.v.
-func CoqCase(res Result, initial []int) string {
+func CoqCase(res Result, initial []int, records []bool) string {
 	h := res.H
 	base := h.Cfg.Base
 	if initial != nil {
 		base = initial
 	}
-	in := []int{len(base)}
+	n := len(base)
+	in := []int{n}
 	in = append(in, base...)
+	for i := 0; i < n; i++ {
+		t := 1
+		if (records == nil && h.Cfg.untracked(i)) || (records != nil && i >= 2 && !records[i]) {
+			t = 0
+		}
+		in = append(in, t)
+	}
 	in = append(in, h.Cfg.SliceLim, h.Cfg.TooLongThr, h.Cfg.CSliceLim, h.Cfg.CTooLongThr, len(h.Log))
 	for _, e := range h.Log {
 		in = append(in, e.ID, int(e.Kind), e.Seq, e.Pos, e.Cnt)
@@ -1174,8 +1332,14 @@ func CoqCase(res Result, initial []int) string {
 	in = append(in, len(res.Executed))
 	for _, o := range res.Executed {
 		in = append(in, o.K, o.Seq)
-		in = append(in, o.Vis...)
-		in = append(in, len(o.Items))
+		for i := 0; i <= n; i++ {
+			in = append(in, visAt(o.Vis, i))
+		}
+		p := 0
+		if o.PtsChanged {
+			p = 1
+		}
+		in = append(in, o.CID, o.SeqNo, p, len(o.Items))
 		in = append(in, o.Items...)
 	}
 	perSeq, plain, final, tl := Project(res, initial)
@@ -1200,10 +1364,14 @@ type GenOpts struct {
 
 // Gen builds a random history: a server log over pts / qts / channel sequences and a
 // delivery schedule with loss, duplication, reordering (delays), grouped pushes and
-// mid-history recoveries, ending with timers + full recovery.
+// mid-history recoveries, ending with timers + full recovery. One third of the histories
+// use numbered containers (seq box: lost / reordered containers, applySeq batches); containers
+// may carry updatePtsChanged; channels may start without a storage record; the final
+// recovery signal is updatesTooLong or updatePtsChanged in an unnumbered / numbered container.
 func Gen(r *hx.Rand, o GenOpts) History {
 	nch := r.Intn(o.MaxChans + 1)
-	cfg := Config{Base: make([]int, 2+nch)}
+	n := 2 + nch
+	cfg := Config{Base: make([]int, n)}
 	for i := range cfg.Base {
 		if r.Chance(1, 2) {
 			cfg.Base[i] = r.Range(1, 120)
@@ -1221,17 +1389,22 @@ func Gen(r *hx.Rand, o GenOpts) History {
 	if r.Chance(1, 7) {
 		cfg.CTooLongThr = r.Range(2, 5)
 	}
+	numbered := r.Chance(1, 3)
+	wantUntracked := make([]bool, n)
+	for i := 2; i < n; i++ {
+		wantUntracked[i] = !numbered && r.Chance(1, 3)
+	}
 	h := History{Cfg: cfg}
 	id := 1
 	budget := r.Range(2, o.MaxEntries)
 	pos := append([]int(nil), cfg.Base...)
-	perSeq := make([][]Entry, len(cfg.Base))
-	for n := 0; n < budget; n++ {
+	perSeq := make([][]Entry, n)
+	for k := 0; k < budget; k++ {
 		seq := 0
 		switch x := r.Intn(10); {
-		case x < 5:
+		case x < 4:
 			seq = 0
-		case x < 7:
+		case x < 6:
 			seq = 1
 		default:
 			if nch > 0 {
@@ -1273,10 +1446,35 @@ func Gen(r *hx.Rand, o GenOpts) History {
 		plains = append(plains, id)
 		id++
 	}
-	vis := append([]int(nil), cfg.Base...)
+	vis := append(append([]int(nil), cfg.Base...), 0) // vis[n] = server seq
 	cp := func() []int { return append([]int(nil), vis...) }
 	h.Ops = append(h.Ops, Op{K: OpStartup, Vis: cp()})
-	next := make([]int, len(cfg.Base))
+	cid := 0
+	var heldBack []Op // numbered containers delivered late (reordering)
+	container := func(items []int) {
+		cid++
+		op := Op{K: OpPush, Items: items, CID: cid, PtsChanged: r.Chance(1, 12)}
+		if numbered {
+			vis[n]++
+			op.SeqNo = vis[n]
+			switch x := r.Intn(100); {
+			case x < 15: // the whole container is lost: seq gap
+				return
+			case x < 30:
+				heldBack = append(heldBack, op)
+				return
+			}
+		}
+		op.Vis = cp()
+		h.Ops = append(h.Ops, op)
+		if len(heldBack) > 0 && r.Chance(1, 2) {
+			hb := heldBack[0]
+			heldBack = heldBack[1:]
+			hb.Vis = cp()
+			h.Ops = append(h.Ops, hb)
+		}
+	}
+	next := make([]int, n)
 	var delayed, pushedOnce []int
 	remaining := func() bool {
 		for s := range perSeq {
@@ -1321,10 +1519,10 @@ func Gen(r *hx.Rand, o GenOpts) History {
 		if len(now) > 0 {
 			pushedOnce = append(pushedOnce, now...)
 			if r.Chance(1, 2) || len(now) == 1 {
-				h.Ops = append(h.Ops, Op{K: OpPush, Vis: cp(), Items: now})
+				container(now)
 			} else {
 				for _, x := range now {
-					h.Ops = append(h.Ops, Op{K: OpPush, Vis: cp(), Items: []int{x}})
+					container([]int{x})
 				}
 			}
 		}
@@ -1337,19 +1535,100 @@ func Gen(r *hx.Rand, o GenOpts) History {
 	}
 	for _, d := range delayed {
 		if r.Chance(1, 2) {
-			h.Ops = append(h.Ops, Op{K: OpPush, Vis: cp(), Items: []int{d}})
+			container([]int{d})
 		}
 	}
-	h.Ops = append(h.Ops, FinalOps(cfg, vis)...)
+	for _, hb := range heldBack {
+		if r.Chance(1, 2) {
+			hb.Vis = cp()
+			h.Ops = append(h.Ops, hb)
+		}
+	}
+	// channels without a storage record: tracked by their first pushed update, whose start is the base
+	h.Cfg.Untracked = make([]bool, n)
+	for seq := 2; seq < n; seq++ {
+		if !wantUntracked[seq] {
+			continue
+		}
+		for _, op := range h.Ops {
+			first, found := 0, false
+			if op.K == OpPush {
+				for _, it := range op.Items {
+					if e, ok := h.entry(it); ok && e.Seq == seq && (!found || e.Start() < first) {
+						first, found = e.Start(), true
+					}
+				}
+			}
+			if found {
+				h.Cfg.Untracked[seq] = true
+				h.Cfg.Base[seq] = first
+				break
+			}
+		}
+	}
+	variant := 0
+	switch x := r.Intn(10); {
+	case x < 4:
+		variant = 0
+	case x < 6 || !numbered:
+		variant = 1
+	case x < 8:
+		variant = 2
+	default:
+		variant = 3
+	}
+	if !numbered && variant == 1 && r.Chance(1, 2) {
+		variant = 0
+	}
+	h.Ops = append(h.Ops, FinalOpsVariant(h.Cfg, vis, variant, numbered, &cid)...)
 	return h
 }
 
-// FinalOps = wait for armed timers, then recover the common state and every channel, then
-// wait for timers again.
+// FinalOps = wait for armed timers, then recover the common state (updatesTooLong) and every
+// channel (updateChannelTooLong), then wait for timers again.
 func FinalOps(cfg Config, vis []int) []Op {
-	cp := func() []int { return append([]int(nil), vis...) }
-	ops := []Op{{K: OpWaitTimers, Vis: cp()}, {K: OpTooLong, Vis: cp()}}
-	for seq := 2; seq < cfg.NSeq(); seq++ {
+	cid := 800000
+	return FinalOpsVariant(cfg, vis, 0, false, &cid)
+}
+
+// FinalOpsVariant: the common recovery signal is
+//
+//	0: updatesTooLong
+//	1: updatePtsChanged in one container (numbered with the next seq if numbered)
+//	2: numbered containers k+1 {updatePtsChanged}, k+2 {} delivered as k+2, k+1 (one applySeq batch)
+//	3: numbered containers k+1 {}, k+2 {updatePtsChanged} delivered as k+2, k+1
+func FinalOpsVariant(cfg Config, vis []int, variant int, numbered bool, cid *int) []Op {
+	n := cfg.NSeq()
+	v := append([]int(nil), vis...)
+	for len(v) <= n {
+		v = append(v, 0)
+	}
+	cp := func() []int { return append([]int(nil), v...) }
+	ops := []Op{{K: OpWaitTimers, Vis: cp()}}
+	mk := func(seqno int, pc bool) Op {
+		*cid++
+		return Op{K: OpPush, CID: *cid, SeqNo: seqno, PtsChanged: pc}
+	}
+	switch {
+	case variant == 0:
+		ops = append(ops, Op{K: OpTooLong, Vis: cp()})
+	case variant == 1 || !numbered:
+		sq := 0
+		if numbered {
+			v[n]++
+			sq = v[n]
+		}
+		o := mk(sq, true)
+		o.Vis = cp()
+		ops = append(ops, o)
+	default:
+		a := mk(v[n]+1, variant == 2)
+		b := mk(v[n]+2, variant == 3)
+		v[n] += 2
+		b.Vis, a.Vis = cp(), cp()
+		ops = append(ops, b, a)
+	}
+	for seq := 2; seq < n; seq++ {
 		ops = append(ops, Op{K: OpChanTooLong, Vis: cp(), Seq: seq})
 	}
 	return append(ops, Op{K: OpWaitTimers, Vis: cp()})
